@@ -71,7 +71,7 @@ def gen_cases(ctx, n):
         if i % 6 == 0:
             probs.append(pc.gen_header_problem(ctx.rng))      # generation/use at nearly the same utility level
             continue
-        regime = ctx.rng.choice(["none", "iso", "multi", "steered", "steered", "glide"])
+        regime = ctx.rng.choice(["none", "iso", "multi", "steered", "steered", "glide", "limit"])
         probs.append(pc.gen_problem(ctx.rng, regime=regime, nmax=6))
     return probs
 
